@@ -1,4 +1,4 @@
-import BiotiteModel.Proofs.C02
+import BiotiteModel.Proofs.C02Spec
 import BiotiteModel.Gen.C02
 /-!
 # C02 — property theorems (a bond list is a set of undirected typed bonds with safe indices)
@@ -311,6 +311,265 @@ theorem C02_contains_defect (s : BL) (i j : Int) (h : i < 0 ∨ j < 0) :
   have : min i j < 0 := by omega
   simp [this]
 
+/-! ## `__getitem__`: relabelling of the map by the inverse index -/
+
+/-- Index-array branch on a normalised index array: a duplicate-free in-range selection is accepted and the result is
+the map relabelled by the selection (a bond is kept iff both atoms are selected, new indices are the positions in the
+selection, unsorted selections included); duplicates are rejected with NotImplementedError, as the code documents. -/
+theorem C02_refines_getitem (s : BL) (sel : List Nat) (hc : Canon s) (hlt : ∀ a ∈ sel, a < s.n) :
+    (sel.Nodup → ∃ s', getSel s sel = .ok s' ∧ abs s' = (abs s).select sel) ∧
+    (¬ sel.Nodup → getSel s sel = .err .notImplemented) := by
+  constructor
+  · intro hnd
+    refine ⟨_, getSel_total hc hnd hlt, abs_eq rfl (fun x y => ?_)⟩
+    exact lookup_relabel hc.sorted hc.nodup hnd x y
+  · intro hnd
+    have h1 : sel.any (fun a => decide (a ≥ s.n)) = false := by
+      rw [← Bool.not_eq_true]
+      simp only [List.any_eq_true, decide_eq_true_eq, not_exists, not_and]
+      intro a ha; have := hlt a ha; omega
+    have h2 : hasDup sel = true := by
+      cases h : hasDup sel with
+      | true => rfl
+      | false => exact absurd ((hasDup_false_iff sel).mp h) hnd
+    simp [getSel, h1, h2]
+
+/-- A boolean mask of the right length is the index array of its `nonzero` positions: both branches of the code are
+the same function. -/
+theorem C02_getitem_mask_is_index (s : BL) (m : List Bool) (hc : Canon s) (hlen : m.length = s.n) :
+    getMask s m = getSel s (truePositions m) :=
+  getMask_eq_getSel hc hlen
+
+/-- Every kind of index object (mask, Python bool list, integer array / list with negative entries, slice with step)
+refines the one `select` specification through the atoms it selects (`resolveIdx`). -/
+theorem C02_refines_getitem_any (s : BL) (ix : Idx) (sel : List Nat) (hc : Canon s)
+    (hr : resolveIdx s.n ix = some sel) (hnd : sel.Nodup) (hlt : ∀ a ∈ sel, a < s.n) :
+    ∃ s', getitem s ix = .ok s' ∧ abs s' = (abs s).select sel := by
+  have key : getitem s ix = getSel s sel := by
+    cases ix with
+    | mask m =>
+      simp only [resolveIdx] at hr
+      split at hr
+      · rename_i hl; injection hr with hr; subst hr
+        exact getMask_eq_getSel hc hl
+      · cases hr
+    | smask m =>
+      simp only [resolveIdx] at hr
+      split at hr
+      · rename_i hl; injection hr with hr; subst hr
+        have : ¬ m.length ≥ 2 := by omega
+        simp only [getitem, this, if_false]
+        exact getMask_eq_getSel hc hl.1
+      · cases hr
+    | blist m =>
+      simp only [resolveIdx] at hr
+      split at hr
+      · rename_i he; injection hr with hr; subst hr
+        simp [getitem, he]
+      · rename_i he
+        split at hr
+        · rename_i hl; injection hr with hr; subst hr
+          have : ¬ m.length ≠ s.n := by omega
+          simp [getitem, he, hl]
+        · cases hr
+    | arr is =>
+      simp only [resolveIdx] at hr
+      simp [getitem, hr]
+    | slice a b c =>
+      simp only [resolveIdx] at hr
+      split at hr
+      · rename_i sel' hs; injection hr with hr; subst hr
+        simp [getitem, hs]
+      · cases hr
+  rw [key]
+  exact (C02_refines_getitem s sel hc hlt).1 hnd
+
+/-! ## The remaining views as functions of the map -/
+
+/-- `as_array()` / `as_set()` / `as_graph()` edges are the graph of the map: a row `(i, j, t)` is present iff the map
+sends `(i, j)` to `t`; rows are sorted, in range, and no row occurs twice. -/
+theorem C02_views_as_array (s : BL) (hc : Canon s) :
+    (∀ i j t, (i, j, t) ∈ s.bonds ↔ lookup s.bonds i j = some t) ∧
+    (∀ i j t, (i, j, t) ∈ asGraph s ↔ lookup s.bonds i j = some t) ∧
+    (∀ c ∈ s.bonds, c.1 ≤ c.2.1 ∧ c.2.1 < s.n) ∧ s.bonds.Nodup := by
+  refine ⟨fun i j t => (lookup_eq_some_iff hc.nodup i j t).symm,
+          fun i j t => (lookup_eq_some_iff hc.nodup i j t).symm,
+          fun c h => ⟨hc.sorted c h, hc.bound c h⟩, ?_⟩
+  have h := hc.nodup
+  simp only [pairs, List.Nodup, List.pairwise_map] at h ⊢
+  exact h.imp (fun hne e => hne (by rw [e]))
+
+/-- `get_all_bonds()` never leaves its buffers (no `ub`): row `k` occupies `deg k ≤ cachedMax` slots (so the `-1`
+padding up to the cached maximum fits), and without the `-1` entries it is exactly the `get_bonds(k)` table. -/
+theorem C02_views_get_all_bonds (s : BL) (hw : WF s) :
+    getAllBonds s = .ok ((List.range s.n).map (rowOf s.bonds)) ∧
+    ∀ k, (rowOf s.bonds k).length ≤ s.cachedMax ∧ (rowOf s.bonds k).filterMap id = incident s.bonds k :=
+  ⟨getAllBonds_ok hw, fun k => ⟨by rw [rowOf_length]; exact hw.2 k, rowOf_filterMap _ _⟩⟩
+
+/-- `adjacency_matrix()` / `bond_type_matrix()`: entry `[i][j]` is the map's value on the unordered pair `{i, j}`
+(`True`/type, or `False`/`-1` when there is no bond). -/
+theorem C02_views_matrices (s : BL) (hc : Canon s) :
+    ∃ A T, adjacencyMatrix s = .ok A ∧ bondTypeMatrix s = .ok T ∧
+      ∀ i j, i < s.n → j < s.n →
+        (A[i]?.bind (·[j]?)) = some (sym s.bonds i j).isSome ∧ (T[i]?.bind (·[j]?)) = some (sym s.bonds i j) := by
+  refine ⟨_, _, by simp [adjacencyMatrix, canon_inRange hc]; rfl, by simp [bondTypeMatrix, canon_inRange hc]; rfl, ?_⟩
+  intro i j hi hj
+  simp [List.getElem?_map, List.getElem?_range, hi, hj]
+
+/-- `(i, j) in bonds` for non-negative indices answers membership of the unordered pair in the map. -/
+theorem C02_views_contains (s : BL) (i j : Int) (hi : 0 ≤ i ∧ i ≤ 4294967295) (hj : 0 ≤ j ∧ j ≤ 4294967295) :
+    containsPair s i j = .ok (sym s.bonds i.toNat j.toNat).isSome := by
+  unfold containsPair
+  have h1 : ¬ (min i j < 0 ∨ min i j > 4294967295) := by omega
+  have h2 : ¬ (max i j < 0 ∨ max i j > 4294967295) := by omega
+  simp only [h1, h2, if_false]
+  have e1 : (min i j).toNat = min i.toNat j.toNat := by omega
+  have e2 : (max i j).toNat = max i.toNat j.toNat := by omega
+  rw [e1, e2, any_isPair_eq]; rfl
+
+/-! ## Totality and the combined refinement over histories -/
+
+/-- `merge` of two well-formed lists never fails (and never reaches an unchecked access). -/
+theorem C02_merge_total (s o : BL) (hs : WF s) (ho : WF o) :
+    ∃ s', merge s o = .ok s' ∧ abs s' = (abs s).merge (abs o) := by
+  obtain ⟨s', h⟩ := merge_total hs ho
+  exact ⟨s', h, abs_eq (merge_wf h).2 (merge_lookup hs.1 ho.1 h)⟩
+
+/-- **Refinement, one step.** Inside the acceptance domain every operation succeeds on well-formed lists and the map
+of the result is the reference operation applied to the map of the input: construction — first type wins; add — the
+new type; merge — the argument; concatenate — disjoint union with offset; getitem — relabelling by the selection. -/
+theorem C02_refines_step (st : State) (op : Op) (hw : WFS st) (hv : Valid st op) :
+    (∃ st', apply st op = .ok st') ∧ absState (step st op) = (absState st).step op := by
+  obtain ⟨hc, ha⟩ := hw
+  have fin : ∀ st' : State, apply st op = .ok st' → abs st'.cur = ((absState st).step op).cur →
+      abs st'.aux = ((absState st).step op).aux →
+      (∃ st', apply st op = .ok st') ∧ absState (step st op) = (absState st).step op := by
+    intro st' h h1 h2
+    refine ⟨⟨st', h⟩, ?_⟩
+    rw [step_of_apply h]
+    cases hs : (absState st).step op
+    rw [hs] at h1 h2
+    simp only at h1 h2
+    simp [absState, h1, h2]
+  cases op with
+  | new toAux n typed input =>
+    obtain ⟨hrows, htypes⟩ := hv
+    obtain ⟨rows, hr⟩ := Option.isSome_iff_exists.mp hrows
+    have htot : ∃ b, newBL n typed input = .ok b := by
+      unfold newBL
+      split
+      · exact ⟨_, rfl⟩
+      · simp only [hr, ctorCore]
+        have : (typed && rows.any (fun c => decide (c.2.2 ≥ 10))) = false := by
+          cases typed
+          · rfl
+          · simp only [Bool.true_and]
+            rw [← Bool.not_eq_true]
+            simp only [List.any_eq_true, decide_eq_true_eq, not_exists, not_and]
+            intro c hcm
+            have hm : c.2.2 ∈ rows.map (·.2.2) := List.mem_map.mpr ⟨c, hcm, rfl⟩
+            rw [normRows_types hr] at hm
+            obtain ⟨r, hrm, he⟩ := List.mem_map.mp hm
+            have := htypes rfl r hrm
+            omega
+        simp only [this, Bool.false_eq_true, if_false]
+        exact ⟨_, rfl⟩
+    obtain ⟨b, hb⟩ := htot
+    obtain ⟨rows', hr', hn, hl⟩ := C02_refines_new n typed input b hb
+    have hrr : rows' = rows := by rw [hr] at hr'; injection hr' with e; exact e.symm
+    subst hrr
+    have habs : abs b = Spec.ofRows n (rows'.map (sortRow typed)) :=
+      abs_eq hn (fun x y => by rw [hl, lookup_eq_find]; rfl)
+    cases toAux
+    · refine fin ⟨b, st.aux⟩ (by simp [apply, hb]) ?_ rfl
+      simp [SpecState.step, absState, habs, hr]
+    · refine fin ⟨st.cur, b⟩ (by simp [apply, hb]) rfl ?_
+      simp [SpecState.step, absState, habs, hr]
+  | swap => exact fin ⟨st.aux, st.cur⟩ rfl rfl rfl
+  | dup => exact fin ⟨st.cur, st.cur⟩ rfl rfl rfl
+  | add i j t =>
+    obtain ⟨hn, hi, hj, ht0, ht⟩ := hv
+    obtain ⟨s', h, hn', hl⟩ := C02_refines_add st.cur i j t hc hn hi hj ⟨ht0, ht⟩
+    refine fin ⟨s', st.aux⟩ (by simp [apply, h, Res.toState]) (abs_eq hn' (fun x y => ?_)) rfl
+    rw [hl]; rfl
+  | remove i j =>
+    obtain ⟨hn, hi, hj⟩ := hv
+    obtain ⟨s', h, hn', hl⟩ := C02_refines_remove st.cur i j hc hn hi hj
+    refine fin ⟨s', st.aux⟩ (by simp [apply, h, Res.toState]) (abs_eq hn' (fun x y => ?_)) rfl
+    rw [hl]; rfl
+  | removeTo i =>
+    obtain ⟨hn, hi⟩ := hv
+    have hk := ((C02_index_guard_partial st.cur.n i hn).1 hi).1
+    have h : removeBondsTo st.cur i =
+        .ok { st.cur with bonds := st.cur.bonds.filter fun c => !(c.1 == (i % st.cur.n).toNat || c.2.1 == (i % st.cur.n).toNat) } := by
+      simp [removeBondsTo, hk]
+    obtain ⟨hn', hl⟩ := C02_refines_remove_to st.cur _ i _ hk h
+    refine fin ⟨_, st.aux⟩ (by simp [apply, h, Res.toState]) (abs_eq hn' (fun x y => ?_)) rfl
+    rw [hl]; rfl
+  | removeBonds =>
+    refine fin ⟨removeBonds st.cur st.aux, st.aux⟩ rfl (abs_eq rfl (fun x y => ?_)) rfl
+    rw [C02_refines_remove_bonds]; rfl
+  | merge =>
+    obtain ⟨s', h, habs⟩ := C02_merge_total st.cur st.aux hc ha
+    exact fin ⟨s', st.aux⟩ (by simp [apply, h, Res.toState]) habs rfl
+  | concat =>
+    have h : concatenate [st.cur, st.aux] = .ok ⟨_, _, _⟩ := rfl
+    obtain ⟨hn', hl⟩ := C02_refines_concat st.cur st.aux _ h
+    refine fin ⟨_, st.aux⟩ (by simp [apply, h, Res.toState]) (abs_eq hn' (fun x y => ?_)) rfl
+    rw [hl]; rfl
+  | concat3 =>
+    have h : concatenate [st.cur, st.aux, st.cur] =
+        .ok ⟨(concatFrom 0 [st.cur, st.aux, st.cur]).2.1, (concatFrom 0 [st.cur, st.aux, st.cur]).1,
+             (concatFrom 0 [st.cur, st.aux, st.cur]).2.2⟩ := rfl
+    refine fin ⟨⟨(concatFrom 0 [st.cur, st.aux, st.cur]).2.1, (concatFrom 0 [st.cur, st.aux, st.cur]).1,
+             (concatFrom 0 [st.cur, st.aux, st.cur]).2.2⟩, st.aux⟩
+      (by simp [apply, h, Res.toState]) (abs_eq ?_ (fun x y => ?_)) rfl
+    · show (concatFrom 0 [st.cur, st.aux, st.cur]).2.1 = st.cur.n + st.aux.n + st.cur.n
+      simp [concatFrom]
+    · show lookup (concatFrom 0 [st.cur, st.aux, st.cur]).1 x y = _
+      simp only [concatFrom, lookup_append, lookup_shift, lookup_nil, Nat.zero_le, and_self, if_true, Nat.sub_zero,
+        Nat.zero_add, Option.or_none]
+      rfl
+  | offset k =>
+    obtain ⟨hk0, hk1⟩ := hv
+    have h : offsetIndices st.cur k = .ok ⟨st.cur.n + k.toNat, shift k.toNat st.cur.bonds, st.cur.cachedMax⟩ := by
+      have h1 : ¬ (k < -2147483648 ∨ k > 2147483647) := by omega
+      have h2 : ¬ k < 0 := by omega
+      simp [offsetIndices, h1, h2]
+    obtain ⟨hn', hl⟩ := C02_refines_offset st.cur _ k h
+    refine fin ⟨_, st.aux⟩ (by simp [apply, h, Res.toState]) (abs_eq hn' (fun x y => ?_)) rfl
+    rw [hl]; rfl
+  | rmArom =>
+    refine fin ⟨removeAromaticity st.cur, st.aux⟩ rfl (abs_eq rfl (fun x y => ?_)) rfl
+    rw [(C02_refines_types st.cur x y).1]; rfl
+  | rmOrder =>
+    refine fin ⟨removeBondOrder st.cur, st.aux⟩ rfl (abs_eq rfl (fun x y => ?_)) rfl
+    rw [(C02_refines_types st.cur x y).2]; rfl
+  | getitem ix =>
+    obtain ⟨sel, hr, hnd, hlt⟩ := hv
+    obtain ⟨s', h, habs⟩ := C02_refines_getitem_any st.cur ix sel hc.1 hr hnd hlt
+    have hspec : ((absState st).step (.getitem ix)).cur = (abs st.cur).select sel := by
+      show (abs st.cur).select ((resolveIdx st.cur.n ix).getD []) = _
+      rw [hr]; rfl
+    exact fin ⟨s', st.aux⟩ (by simp [apply, h, Res.toState]) (by rw [hspec]; exact habs) rfl
+
+/-- **Refinement over whole histories.** From the empty lists, a history inside the acceptance domain leaves the
+real lists observationally equal to the reference maps obtained by folding the reference operations. -/
+theorem C02_refines (ops : List Op) (st : State) (hw : WFS st) (hv : ValidRun st ops) :
+    absState (ops.foldl step st) = ops.foldl SpecState.step (absState st) ∧ WFS (ops.foldl step st) := by
+  induction ops generalizing st with
+  | nil => exact ⟨rfl, hw⟩
+  | cons op ops ih =>
+    obtain ⟨hv1, hv2⟩ := hv
+    have hsafe : OpSafe st op := by
+      cases op <;> simp only [OpSafe]
+      case add i j t => exact ⟨hv1.1, hv1.2.1.1, hv1.2.2.1.1⟩
+    have hw' := step_wf hw hsafe
+    have := ih (step st op) hw' hv2
+    simp only [List.foldl_cons]
+    rw [this.1, (C02_refines_step st op hw hv1).2]
+    exact ⟨rfl, this.2⟩
+
 /-! ## Obligations on the tables regenerated from `bonds.pyx` on every run -/
 
 /-- `BondType` is `0..len-1` without gaps (so `>= len(BondType)` is exactly "not a member"), the model's bound `10`
@@ -356,5 +615,20 @@ example : getitem ⟨4, [(0, 1, 1), (1, 2, 2), (0, 3, 5)], 2⟩ (.slice none non
 example : getBonds ⟨4, [(0, 1, 1), (1, 2, 2), (0, 3, 5)], 2⟩ (-3) = .ok [(0, 1), (2, 2)] := by decide
 example : beq ⟨4, [(0, 1, 1), (1, 2, 2)], 2⟩ ⟨4, [(1, 2, 2), (0, 1, 1)], 5⟩ = true := by decide
 example : (applyPairs aromPairs 5, applyPairs aromPairs 9, applyPairs aromPairs 8) = (1, 0, 8) := by decide
+
+-- the acceptance domain and the reference are inhabited by non-trivial instances
+example : Valid ⟨⟨4, [(0, 1, 1), (1, 2, 2), (0, 3, 5)], 2⟩, BL.empty 0⟩ (.getitem (.arr [3, -4, 1])) :=
+  ⟨[3, 0, 1], by decide, by decide, by decide⟩
+example : Valid ⟨⟨4, [(0, 1, 1)], 1⟩, BL.empty 0⟩ (.getitem (.slice none none (some (-2)))) :=
+  ⟨[3, 1], by decide, by decide, by decide⟩
+example : ValidRun State.init [.new false 4 true [(0, 1, 1), (1, 0, 7), (-1, 0, 5)], .add (-1) 1 9, .merge, .rmArom] :=
+  ⟨⟨by decide, by decide⟩, ⟨by decide, ⟨by decide, by decide⟩, ⟨by decide, by decide⟩, by decide, by decide⟩,
+   trivial, trivial, trivial⟩
+example : ((abs ⟨4, [(0, 1, 1), (1, 2, 2), (0, 3, 5)], 2⟩).select [3, 0, 1]).m 0 1 = some 5 ∧
+    ((abs ⟨4, [(0, 1, 1), (1, 2, 2), (0, 3, 5)], 2⟩).select [3, 0, 1]).m 1 2 = some 1 ∧
+    ((abs ⟨4, [(0, 1, 1), (1, 2, 2), (0, 3, 5)], 2⟩).select [3, 0, 1]).m 0 2 = none := by decide
+example : getAllBonds ⟨3, [(1, 1, 2), (1, 2, 1), (0, 1, 3)], 4⟩ =
+    .ok [[some (1, 3)], [some (1, 2), none, some (2, 1), some (0, 3)], [some (1, 1)]] := by decide
+example : containsPair ⟨4, [(0, 1, 1)], 1⟩ 1 0 = .ok true := by decide
 
 end BiotiteModel.C02
